@@ -23,6 +23,33 @@ def _run(args, timeout=600):
         return {"outcome": "error", "stdout": p.stdout[-1500:], "stderr": p.stderr[-1500:]}
 
 
+_CONCRETE_FIXTURES = ("Prov", "CS")
+_lemma_anns = {}
+
+
+def can_replay(d):
+    """replay needs a concrete counterpart for every fixture the lemma uses"""
+    import ast
+    key = (d["file"], d["lemma"])
+    if key not in _lemma_anns:
+        anns = []
+        try:
+            with open(os.path.join(HERE, d["file"])) as f:
+                tree = ast.parse(f.read())
+            for n in tree.body:
+                if isinstance(n, ast.FunctionDef) and n.name == d["lemma"]:
+                    anns = [ast.unparse(a.annotation) if a.annotation is not None else "str" for a in n.args.args]
+        except Exception:
+            anns = ["?"]
+        _lemma_anns[key] = anns
+    for a in _lemma_anns[key]:
+        if a in ("str", "int", "float", "bool", "opt_str", "opt_float"):
+            continue
+        if a not in _CONCRETE_FIXTURES:
+            return False
+    return True
+
+
 def inputs_from_model(d, model):
     from fractions import Fraction
     inputs = {}
